@@ -222,3 +222,71 @@ impl LinCommParts for <LigeroUniPC as PolynomialCommitment<SF, UP>>::Commitment 
         (a, b, c, *r)
     }
 }
+
+/// homomorphic-add operators used by the linear-combination code:
+/// kzg10::Commitment += (f, &D) onto a non-identity accumulator, kzg10 / marlin Randomness += (f, &R)
+pub fn add_operators(seed: u64) -> Verdict {
+    fn co(p: &UP, i: usize) -> SF {
+        use ark_poly::DenseUVPolynomial;
+        p.coeffs().get(i).copied().unwrap_or(SF::zero())
+    }
+    use crate::engine::grp::{ToyPairing, TA};
+    use ark_poly::DenseUVPolynomial;
+    use ark_poly_commit::kzg10;
+    use ark_poly_commit::marlin_pc;
+    use ark_poly_commit::PCCommitmentState;
+    let _ = seed;
+    let (c, d, f, g) = (sym("c"), sym("d"), sym("f"), sym("g"));
+    let mut acc = kzg10::Commitment::<ToyPairing>(TA(c));
+    acc += (f, &kzg10::Commitment::<ToyPairing>(TA(d)));
+    if acc.0 .0 != c + f * d {
+        return Verdict::viol("commitment-add-assign", "Commitment += (f, &D) is not C + f*D");
+    }
+    acc += (g, &kzg10::Commitment::<ToyPairing>(TA(d)));
+    if acc.0 .0 != c + f * d + g * d {
+        return Verdict::viol("commitment-add-assign", "a second Commitment += (g, &D) is not C + f*D + g*D");
+    }
+    // randomness: blinding polynomials scale and add coefficient-wise, plain and shifted parts
+    let mk = |tag: &str, n: usize| -> kzg10::Randomness<SF, UP> {
+        let mut r = kzg10::Randomness::<SF, UP>::empty();
+        r.blinding_polynomial = UP::from_coefficients_vec((0..n).map(|i| sym(&format!("{}{}", tag, i))).collect());
+        r
+    };
+    let (r1, r2, s1, s2) = (mk("r", 3), mk("q", 3), mk("s", 3), mk("t", 3));
+    let mut k = kzg10::Randomness::<SF, UP>::empty();
+    k += (f, &r1);
+    k += (g, &r2);
+    for i in 0..3 {
+        if co(&k.blinding_polynomial, i) != f * co(&r1.blinding_polynomial, i) + g * co(&r2.blinding_polynomial, i) {
+            return Verdict::viol("randomness-add-assign", "kzg10 Randomness += (f, &R) is not coefficient-wise f*R");
+        }
+    }
+    let a = marlin_pc::Randomness { rand: r1.clone(), shifted_rand: Some(s1.clone()) };
+    let b = marlin_pc::Randomness { rand: r2.clone(), shifted_rand: Some(s2.clone()) };
+    let mut m = marlin_pc::Randomness::<SF, UP>::empty();
+    m += (f, &a);
+    m += (g, &b);
+    let sh = match &m.shifted_rand {
+        Some(x) => x.clone(),
+        None => return Verdict::viol("randomness-add-assign", "marlin Randomness += (f, &R) lost the shifted part"),
+    };
+    for i in 0..3 {
+        if co(&m.rand.blinding_polynomial, i) != f * co(&r1.blinding_polynomial, i) + g * co(&r2.blinding_polynomial, i) {
+            return Verdict::viol("randomness-add-assign", "marlin Randomness += (f, &R): plain part is not f*R + g*R'");
+        }
+        if co(&sh.blinding_polynomial, i) != f * co(&s1.blinding_polynomial, i) + g * co(&s2.blinding_polynomial, i) {
+            return Verdict::viol("randomness-add-assign-shifted", "marlin Randomness += (f, &R): shifted part is not f*S + g*S'");
+        }
+    }
+    // unscaled add
+    let mut u = marlin_pc::Randomness::<SF, UP>::empty();
+    u += &a;
+    u += &b;
+    for i in 0..3 {
+        let shu = u.shifted_rand.as_ref().map(|x| co(&x.blinding_polynomial, i));
+        if co(&u.rand.blinding_polynomial, i) != co(&r1.blinding_polynomial, i) + co(&r2.blinding_polynomial, i) || shu != Some(co(&s1.blinding_polynomial, i) + co(&s2.blinding_polynomial, i)) {
+            return Verdict::viol("randomness-add-assign", "marlin Randomness += &R is not coefficient-wise addition");
+        }
+    }
+    Verdict::Hold
+}
